@@ -312,6 +312,8 @@ class Chain:
         for g in user:
             if g.params and len(g.params) == 1 and cls.rsplit("::", 1)[-1] in (g.params[0].get("t") or "") and g.params[0].get("ref"):
                 return None      # user-written copy/move constructor: not modelled
+            if any(r.get("delegating") for r in g.ctor_inits()):
+                continue         # delegates to another constructor of the class, which is in this list itself
             inits = [r for r in g.ctor_inits() if r.get("member") == field]
             if len(inits) != 1 or not inits[0].c:
                 return None
